@@ -11,8 +11,8 @@ import (
 // planner_agg_op.go, planner_metrics15s_shortcut.go (case label ↦ the SQL text or format written in that case)
 // and planner_comparison.go composed with sql_select/condition.go (LogQL operator ↦ SQL operator).
 
-// switchOn finds, in the method recv.name of file rel, the switch statement whose tag is `<x>.<field>`.
-func switchOn(rel, recv, name, field string) (*ast.SwitchStmt, error) {
+// lqSwitchOn finds, in the method recv.name of file rel, the switch statement whose tag is `<x>.<field>`.
+func lqSwitchOn(rel, recv, name, field string) (*ast.SwitchStmt, error) {
 	_, f, err := parseFile(rel)
 	if err != nil {
 		return nil, err
@@ -77,7 +77,7 @@ func caseTexts(sw *ast.SwitchStmt) ([][2]string, error) {
 	return res, nil
 }
 
-func leanPairs(name, doc string, ps [][2]string) string {
+func lqLeanPairs(name, doc string, ps [][2]string) string {
 	var b strings.Builder
 	fmt.Fprintf(&b, "/-- %s -/\ndef %s : List (String × String) :=\n  [", doc, name)
 	for i, p := range ps {
@@ -100,7 +100,7 @@ func init() {
 			{"planner_agg_op.go", "AggOpPlanner", "Func", "aggOps", "`switch b.Func` of AggOpPlanner.Process"},
 			{"planner_metrics15s_shortcut.go", "Metrics15ShortcutPlanner", "Function", "shortcutOps", "`switch m.Function` of Metrics15ShortcutPlanner.Process"},
 		} {
-			sw, err := switchOn(dir+t.file, t.recv, "Process", t.field)
+			sw, err := lqSwitchOn(dir+t.file, t.recv, "Process", t.field)
 			if err != nil {
 				return "", err
 			}
@@ -108,10 +108,10 @@ func init() {
 			if err != nil {
 				return "", fmt.Errorf("%s: %w", t.file, err)
 			}
-			out += leanPairs(t.name, t.doc, ps)
+			out += lqLeanPairs(t.name, t.doc, ps)
 		}
 		// comparison: case ">" → fn = sql.Gt, and sql_select.Gt → BinaryLogicalOp(">", …)
-		sw, err := switchOn(dir+"planner_comparison.go", "ComparisonPlanner", "Process", "Fn")
+		sw, err := lqSwitchOn(dir+"planner_comparison.go", "ComparisonPlanner", "Process", "Fn")
 		if err != nil {
 			return "", err
 		}
@@ -158,7 +158,7 @@ func init() {
 			}
 			cmp = append(cmp, [2]string{label, op})
 		}
-		out += leanPairs("cmpOps", "`switch c.Fn` of ComparisonPlanner.Process composed with sql_select's constructors: LogQL operator ↦ SQL operator", cmp)
+		out += lqLeanPairs("cmpOps", "`switch c.Fn` of ComparisonPlanner.Process composed with sql_select's constructors: LogQL operator ↦ SQL operator", cmp)
 		out += "end Qryn.Gen.LogQLOps\n"
 		return out, nil
 	})
